@@ -4,11 +4,15 @@
 set -e
 cd "$(dirname "$0")"
 export CARGO_NET_OFFLINE=true
+# the repository under verification: /repo, unless VERIF_REPO names a snapshot of it (background
+# runs on a copy of /verif; the harness manifest of that copy is pointed at the snapshot)
+REPO="${VERIF_REPO:-/repo}"
+if [ "$REPO" != /repo ]; then sed -i "s#\"/repo/#\"$REPO/#" harness/Cargo.toml; fi
 mkdir -p work evidence replays
-python3 tools/rs2v.py /repo coq/Gen || true
+python3 tools/rs2v.py "$REPO" coq/Gen || true
 (cd coq && coq_makefile -f _CoqProject -o Makefile >/dev/null && timeout 7200 make -j16 >/dev/null)
 (ulimit -s unlimited 2>/dev/null; cd extract && coqc -Q ../coq Verif Extract.v >/dev/null && ocamlfind ocamlopt -package zarith -linkpkg -O2 -w -a model.mli model.ml main.ml -o model_cli)
-cp /repo/Cargo.lock harness/Cargo.lock
-cp /repo/rust-toolchain harness/rust-toolchain
+cp "$REPO/Cargo.lock" harness/Cargo.lock
+cp "$REPO/rust-toolchain" harness/rust-toolchain
 (cd harness && timeout 7200 cargo build --release --offline >/dev/null 2>&1)
 echo setup ok
